@@ -1,4 +1,216 @@
 package main
 
-// genMore: further tables (sort keys, map ranges, loops, nil guards); filled in as the models grow.
-func genMore() {}
+import (
+	"fmt"
+	"go/ast"
+	"go/token"
+	"os"
+	"path/filepath"
+	"sort"
+	"strings"
+)
+
+// genMore: nil guards of *T methods, condition-less loops, map ranges.
+func genMore() {
+	genNilGuards()
+	genLoops()
+}
+
+type methInfo struct {
+	name      string
+	direct    int // 1 guarded (nil test before any field use), 0 unguarded (field use first), 2 only delegates / no use
+	delegates []string
+}
+
+func isRecv(e ast.Expr, recv string) bool {
+	id, ok := e.(*ast.Ident)
+	return ok && id.Name == recv
+}
+
+func genNilGuards() {
+	dir := filepath.Join(repo, "base")
+	ents, err := os.ReadDir(dir)
+	if err != nil {
+		refuse("read base/: %v", err)
+	}
+	var infos []*methInfo
+	methods := map[string]bool{}
+	var files []*ast.File
+	for _, e := range ents {
+		if !strings.HasSuffix(e.Name(), ".go") || strings.HasSuffix(e.Name(), "_test.go") || strings.Contains(e.Name(), "verif") {
+			continue
+		}
+		f := parseFile("base/" + e.Name())
+		files = append(files, f)
+		for _, d := range f.Decls {
+			if fd, ok := d.(*ast.FuncDecl); ok && fd.Recv != nil && len(fd.Recv.List) == 1 {
+				if _, isPtr := fd.Recv.List[0].Type.(*ast.StarExpr); isPtr && recvTypeName(fd.Recv.List[0].Type) == "T" {
+					methods[fd.Name.Name] = true
+				}
+			}
+		}
+	}
+	for _, f := range files {
+		for _, d := range f.Decls {
+			fd, ok := d.(*ast.FuncDecl)
+			if !ok || fd.Recv == nil || len(fd.Recv.List) != 1 || fd.Body == nil {
+				continue
+			}
+			if _, isPtr := fd.Recv.List[0].Type.(*ast.StarExpr); !isPtr || recvTypeName(fd.Recv.List[0].Type) != "T" {
+				continue
+			}
+			if len(fd.Recv.List[0].Names) != 1 {
+				continue
+			}
+			recv := fd.Recv.List[0].Names[0].Name
+			mi := &methInfo{name: fd.Name.Name, direct: 2}
+			decided := false
+			callFuns := map[*ast.SelectorExpr]bool{}
+			ast.Inspect(fd.Body, func(n ast.Node) bool {
+				if decided {
+					return false
+				}
+				switch x := n.(type) {
+				case *ast.CallExpr:
+					if se, ok := x.Fun.(*ast.SelectorExpr); ok && isRecv(se.X, recv) && methods[se.Sel.Name] {
+						callFuns[se] = true
+					}
+				case *ast.BinaryExpr:
+					if (x.Op == token.EQL || x.Op == token.NEQ) && isRecv(x.X, recv) {
+						if id, ok := x.Y.(*ast.Ident); ok && id.Name == "nil" {
+							mi.direct = 1
+							decided = true
+							return false
+						}
+					}
+				case *ast.SelectorExpr:
+					if isRecv(x.X, recv) {
+						if callFuns[x] {
+							mi.delegates = append(mi.delegates, x.Sel.Name)
+						} else {
+							mi.direct = 0
+							decided = true
+							return false
+						}
+					}
+				case *ast.StarExpr:
+					if isRecv(x.X, recv) {
+						mi.direct = 0
+						decided = true
+						return false
+					}
+				}
+				return true
+			})
+			infos = append(infos, mi)
+		}
+	}
+	byName := map[string]*methInfo{}
+	for _, m := range infos {
+		byName[m.name] = m
+	}
+	// fixpoint: a method that reaches a nil test or the end only through guarded delegates is guarded
+	guarded := map[string]bool{}
+	for _, m := range infos {
+		guarded[m.name] = m.direct != 0
+	}
+	for changed := true; changed; {
+		changed = false
+		for _, m := range infos {
+			if !guarded[m.name] {
+				continue
+			}
+			for _, d := range m.delegates {
+				if !guarded[d] {
+					guarded[m.name] = false
+					changed = true
+					break
+				}
+			}
+		}
+	}
+	sort.Slice(infos, func(i, j int) bool { return infos[i].name < infos[j].name })
+	var b strings.Builder
+	b.WriteString("namespace RubyTi.Gen\n")
+	b.WriteString("/-- methods with receiver `t *T` in base/: (name, is an Is…/Has… predicate, guarded) where guarded := a `t == nil`/`t != nil` test\n(or only calls of guarded methods) comes before the first field access through `t`. -/\n")
+	b.WriteString("def nilGuards : List (String × Bool × Bool) := [")
+	for i, m := range infos {
+		if i > 0 {
+			b.WriteString(", ")
+		}
+		fmt.Fprintf(&b, "(%s, %v, %v)", leanStr(m.name), isPredicateName(m.name), guarded[m.name])
+	}
+	b.WriteString("]\nend RubyTi.Gen\n")
+	writeGen("NilGuards", b.String())
+}
+
+// condition-less `for` loops in eval/, eval/method_evaluator/, parser/: does the body ask the
+// parser for a token (Read/ReadWithCheck/ReadAhead/ReadTwice/Skip/SkipNewline/SkipToTargetToken
+// or a call of an Eval*/evaluat* function, which reads) ?
+func genLoops() {
+	var rows []string
+	total := 0
+	for _, dir := range []string{"eval", "eval/method_evaluator", "parser"} {
+		ents, err := os.ReadDir(filepath.Join(repo, dir))
+		if err != nil {
+			refuse("read %s: %v", dir, err)
+		}
+		for _, e := range ents {
+			if !strings.HasSuffix(e.Name(), ".go") || strings.HasSuffix(e.Name(), "_test.go") || strings.Contains(e.Name(), "verif") {
+				continue
+			}
+			f := parseFile(dir + "/" + e.Name())
+			for _, d := range f.Decls {
+				fd, ok := d.(*ast.FuncDecl)
+				if !ok || fd.Body == nil {
+					continue
+				}
+				ord := 0
+				ast.Inspect(fd.Body, func(n ast.Node) bool {
+					fs, ok := n.(*ast.ForStmt)
+					if !ok || fs.Cond != nil {
+						return true
+					}
+					ord++
+					total++
+					reads := false
+					ast.Inspect(fs.Body, func(m ast.Node) bool {
+						if ce, ok := m.(*ast.CallExpr); ok {
+							name := ""
+							switch fn := ce.Fun.(type) {
+							case *ast.SelectorExpr:
+								name = fn.Sel.Name
+							case *ast.Ident:
+								name = fn.Name
+							}
+							switch {
+							case name == "Read", name == "ReadWithCheck", name == "ReadAhead", name == "ReadTwice",
+								name == "Skip", name == "SkipNewline", name == "SkipToTargetToken", name == "getToken":
+								reads = true
+							}
+						}
+						return !reads
+					})
+					rows = append(rows, fmt.Sprintf("(%s, %s, %d, %v)", leanStr(dir+"/"+e.Name()), leanStr(fd.Name.Name), ord, reads))
+					return true
+				})
+			}
+		}
+	}
+	sort.Strings(rows)
+	var b strings.Builder
+	b.WriteString("namespace RubyTi.Gen\n")
+	b.WriteString("/-- every condition-less `for` in eval/, eval/method_evaluator/, parser/: (file, func, ordinal, body requests a token) -/\n")
+	b.WriteString("def loops : List (String × String × Nat × Bool) := [\n  " + strings.Join(rows, ",\n  ") + "]\n")
+	b.WriteString("end RubyTi.Gen\n")
+	writeGen("Loops", b.String())
+}
+
+func isPredicateName(n string) bool {
+	for _, p := range []string{"Is", "Has"} {
+		if strings.HasPrefix(n, p) && len(n) > len(p) && n[len(p)] >= 'A' && n[len(p)] <= 'Z' {
+			return true
+		}
+	}
+	return false
+}
